@@ -14,6 +14,13 @@ transformations are semantics-preserving by construction):
   rettemp      `return <expr>` -> `_ret = <expr>; return _ret`
   docstring    a docstring is added to every function that has none and a module-level constant is added
   reorder      the methods of every class are emitted in reverse order when no method is used in the class body itself
+  noelse       `if c: ...; return  else: B` -> the else branch is dedented behind the if (no-else-return clean-up)
+  addelse      the reverse: statements behind `if c: ...; return` move into an else branch
+  demorgan     `if a and b: A else: B` -> `if not a or not b: B else: A`; `not (a or b)` -> `not a and not b`
+  chaincmp     `a < b <= c` -> `a < b and b <= c` (pure middle operand)
+  ifexp        `if c: T = A else: T = B` -> `T = A if c else B`, same for two returns
+  comp2loop    `L = [E for x in I if c]` -> `L = []` + append loop (when the loop variables are not used elsewhere)
+  kwargs       positional arguments after the first are passed by keyword for methods whose name is defined once in the package
 
 usage: tools/neutral_fuzz.py [transform ...] [--props C01,C05]"""
 import ast
@@ -410,8 +417,248 @@ def t_tryfinally(tree, src):
     return tree
 
 
+
+# ---- second batch ------------------------------------------------------------------------------------------------
+def _terminates(stmts):
+    return bool(stmts) and isinstance(stmts[-1], (ast.Return, ast.Raise, ast.Continue, ast.Break))
+
+
+class _BlockRewriter(ast.NodeTransformer):
+    """applies self._block(stmts) to every statement list"""
+
+    def generic_visit(self, node):
+        super().generic_visit(node)
+        for f in ("body", "orelse", "finalbody"):
+            v = getattr(node, f, None)
+            if isinstance(v, list) and v and isinstance(v[0], ast.stmt):
+                setattr(node, f, self._block(v))
+        return node
+
+
+class _NoElse(_BlockRewriter):
+    """`if c: A; return  else: B`  ->  `if c: A; return` followed by B   (pylint's no-else-return clean-up)"""
+
+    def _block(self, stmts):
+        out = []
+        for st in stmts:
+            if isinstance(st, ast.If) and st.orelse and _terminates(st.body) and not (len(st.orelse) == 1 and isinstance(st.orelse[0], ast.If)):
+                rest = st.orelse
+                st.orelse = []
+                out.append(st)
+                out.extend(rest)
+            else:
+                out.append(st)
+        return out
+
+
+def t_noelse(tree, src):
+    return _NoElse().visit(tree)
+
+
+class _AddElse(_BlockRewriter):
+    """`if c: A; return` followed by B  ->  `if c: A; return  else: B`   (the reverse clean-up)"""
+
+    def _block(self, stmts):
+        for k, st in enumerate(stmts):
+            if isinstance(st, ast.If) and not st.orelse and _terminates(st.body) and isinstance(st.body[-1], (ast.Return, ast.Raise)) \
+                    and k + 1 < len(stmts) and not any(isinstance(x, (ast.FunctionDef, ast.ClassDef, ast.Global, ast.Nonlocal)) for x in stmts[k + 1:]):
+                st.orelse = self._block(stmts[k + 1:])
+                return stmts[:k + 1]
+        return stmts
+
+
+def t_addelse(tree, src):
+    return _AddElse().visit(tree)
+
+
+class _DeMorgan(ast.NodeTransformer):
+    """`if a and b: A else: B` -> `if not a or not b: B else: A` ;  `if not (a or b)` -> `if not a and not b`"""
+
+    @staticmethod
+    def _neg(e):
+        if isinstance(e, ast.UnaryOp) and isinstance(e.op, ast.Not):
+            return e.operand
+        return ast.UnaryOp(op=ast.Not(), operand=e)
+
+    def visit_If(self, node):
+        self.generic_visit(node)
+        t = node.test
+        if isinstance(t, ast.UnaryOp) and isinstance(t.op, ast.Not) and isinstance(t.operand, ast.BoolOp):
+            b = t.operand
+            op = ast.And() if isinstance(b.op, ast.Or) else ast.Or()
+            node.test = ast.BoolOp(op=op, values=[self._neg(v) for v in b.values])
+            return node
+        if isinstance(t, ast.BoolOp) and node.orelse and not (len(node.orelse) == 1 and isinstance(node.orelse[0], ast.If)):
+            op = ast.And() if isinstance(t.op, ast.Or) else ast.Or()
+            return ast.copy_location(ast.If(test=ast.BoolOp(op=op, values=[self._neg(v) for v in t.values]), body=node.orelse, orelse=node.body), node)
+        return node
+
+
+def t_demorgan(tree, src):
+    return _DeMorgan().visit(tree)
+
+
+class _ChainCmp(ast.NodeTransformer):
+    """`a < b <= c` -> `a < b and b <= c` when the middle operand is a plain name / constant / attribute chain"""
+
+    def visit_Compare(self, node):
+        self.generic_visit(node)
+        if len(node.ops) == 2 and all(isinstance(x, (ast.Name, ast.Constant, ast.Attribute, ast.expr_context)) for x in ast.walk(node.comparators[0])):
+            import copy
+            mid = node.comparators[0]
+            return ast.copy_location(ast.BoolOp(op=ast.And(), values=[
+                ast.Compare(left=node.left, ops=[node.ops[0]], comparators=[mid]),
+                ast.Compare(left=copy.deepcopy(mid), ops=[node.ops[1]], comparators=[node.comparators[1]])]), node)
+        return node
+
+
+def t_chaincmp(tree, src):
+    return _ChainCmp().visit(tree)
+
+
+class _IfExp(_BlockRewriter):
+    """`if c: T = A else: T = B` -> `T = A if c else B` ;  `if c: return A else: return B` -> `return A if c else B`"""
+
+    def _block(self, stmts):
+        out = []
+        for st in stmts:
+            if isinstance(st, ast.If) and len(st.body) == 1 and len(st.orelse) == 1:
+                a, b = st.body[0], st.orelse[0]
+                if isinstance(a, ast.Return) and isinstance(b, ast.Return) and a.value is not None and b.value is not None:
+                    out.append(ast.copy_location(ast.Return(value=ast.IfExp(test=st.test, body=a.value, orelse=b.value)), st))
+                    continue
+                if isinstance(a, ast.Assign) and isinstance(b, ast.Assign) and len(a.targets) == 1 and len(b.targets) == 1 \
+                        and isinstance(a.targets[0], (ast.Name, ast.Attribute)) and ast.dump(a.targets[0]) == ast.dump(b.targets[0]) \
+                        and all(isinstance(x, (ast.Name, ast.Attribute, ast.expr_context)) for x in ast.walk(a.targets[0])):
+                    out.append(ast.copy_location(ast.Assign(targets=[a.targets[0]], value=ast.IfExp(test=st.test, body=a.value, orelse=b.value), lineno=st.lineno), st))
+                    continue
+            out.append(st)
+        return out
+
+
+def t_ifexp(tree, src):
+    return _IfExp().visit(tree)
+
+
+class _Comp2Loop(_BlockRewriter):
+    """`L = [E for x in I if c]` -> `L = []; for x in I: if c: L.append(E)` when neither L nor the loop variables occur elsewhere
+    in a way that could observe the difference (L not read in the comprehension, loop variables not used outside it)"""
+
+    def __init__(self):
+        self.fn_names = [{}]
+
+    def visit_FunctionDef(self, node):
+        counts = {}
+        for n in ast.walk(node):
+            if isinstance(n, ast.Name):
+                counts[n.id] = counts.get(n.id, 0) + 1
+            elif isinstance(n, ast.arg):
+                counts[n.arg] = counts.get(n.arg, 0) + 1
+        nested = any(isinstance(n, (ast.FunctionDef, ast.Lambda, ast.ClassDef)) and n is not node for n in ast.walk(node))
+        self.fn_names.append(None if nested else counts)
+        try:
+            return self.generic_visit(node)
+        finally:
+            self.fn_names.pop()
+
+    def _block(self, stmts):
+        counts = self.fn_names[-1]
+        if not counts:
+            return stmts
+        out = []
+        for st in stmts:
+            ok = False
+            if isinstance(st, ast.Assign) and len(st.targets) == 1 and isinstance(st.targets[0], ast.Name) and isinstance(st.value, ast.ListComp) \
+                    and len(st.value.generators) == 1 and not st.value.generators[0].is_async:
+                g = st.value.generators[0]
+                tv = [n.id for n in ast.walk(g.target) if isinstance(n, ast.Name)]
+                inside = {}
+                for n in ast.walk(st.value):
+                    if isinstance(n, ast.Name):
+                        inside[n.id] = inside.get(n.id, 0) + 1
+                lname = st.targets[0].id
+                nested_comp = any(isinstance(n, (ast.ListComp, ast.SetComp, ast.DictComp, ast.GeneratorExp, ast.Lambda, ast.NamedExpr)) and n is not st.value for n in ast.walk(st.value))
+                if lname not in inside and not nested_comp and all(counts.get(v, 0) == inside.get(v, 0) for v in tv) \
+                        and isinstance(g.target, (ast.Name, ast.Tuple)):
+                    ok = True
+            if not ok:
+                out.append(st)
+                continue
+            body = [ast.Expr(value=ast.Call(func=ast.Attribute(value=ast.Name(id=lname, ctx=ast.Load()), attr="append", ctx=ast.Load()), args=[st.value.elt], keywords=[]))]
+            for c in reversed(g.ifs):
+                body = [ast.If(test=c, body=body, orelse=[])]
+            out.append(ast.copy_location(ast.Assign(targets=[ast.Name(id=lname, ctx=ast.Store())], value=ast.List(elts=[], ctx=ast.Load()), lineno=st.lineno), st))
+            out.append(ast.copy_location(ast.For(target=g.target, iter=g.iter, body=body, orelse=[], lineno=st.lineno), st))
+        return out
+
+
+def t_comp2loop(tree, src):
+    for n in ast.walk(tree):
+        if isinstance(n, (ast.ListComp,)):
+            for g in n.generators:
+                for t in ast.walk(g.target):
+                    if isinstance(t, ast.Name):
+                        t.ctx = ast.Store()
+    return _Comp2Loop().visit(tree)
+
+
+_METHOD_SIGS = None
+
+
+def _method_signatures():
+    """method name -> positional parameter names (without self), for names defined exactly once in the package with a
+    plain positional signature; property setters / overloads / *args make the name ineligible"""
+    global _METHOD_SIGS
+    if _METHOD_SIGS is None:
+        seen = {}
+        for root, _d, files in os.walk(os.path.join("/repo", PKG)):
+            for f in files:
+                if f.endswith(".py"):
+                    try:
+                        t = ast.parse(open(os.path.join(root, f)).read())
+                    except SyntaxError:
+                        continue
+                    for cls in ast.walk(t):
+                        if isinstance(cls, ast.ClassDef):
+                            for fn in cls.body:
+                                if isinstance(fn, ast.FunctionDef):
+                                    a = fn.args
+                                    static = any(isinstance(d, ast.Name) and d.id == "staticmethod" for d in fn.decorator_list)
+                                    plain = not a.vararg and not a.kwarg and not a.posonlyargs and (not fn.decorator_list or static)
+                                    names = [x.arg for x in a.args][0 if static else 1:]
+                                    seen.setdefault(fn.name, []).append(names if plain else None)
+                    for fn in t.body:
+                        if isinstance(fn, ast.FunctionDef):
+                            seen.setdefault(fn.name, []).append(None)     # module-level functions: not touched
+        _METHOD_SIGS = {k: v[0] for k, v in seen.items() if len(v) == 1 and v[0] is not None and not k.startswith("__")}
+    return _METHOD_SIGS
+
+
+class _Kwargs(ast.NodeTransformer):
+    """`self.m(a, b)` -> `self.m(a, p2=b)`: all positional arguments after the first are passed by keyword when the method name is
+    defined exactly once in the whole package (so every subclass binds the same way)"""
+
+    def visit_Call(self, node):
+        self.generic_visit(node)
+        sigs = _method_signatures()
+        if isinstance(node.func, ast.Attribute) and node.func.attr in sigs and not any(isinstance(a, ast.Starred) for a in node.args) \
+                and not any(k.arg is None for k in node.keywords) and isinstance(node.func.value, ast.Name) and node.func.value.id == "self":
+            names = sigs[node.func.attr]
+            if 2 <= len(node.args) <= len(names) and not ({k.arg for k in node.keywords} & set(names[:len(node.args)])):
+                kw = [ast.keyword(arg=names[i], value=node.args[i]) for i in range(1, len(node.args))]
+                node.args = node.args[:1]
+                node.keywords = kw + node.keywords
+        return node
+
+
+def t_kwargs(tree, src):
+    return _Kwargs().visit(tree)
+
+
 TRANSFORMS = {"tryfinally": t_tryfinally, "logging": t_logging, "cmpswap": t_cmpswap, "mergeif": t_mergeif, "hoist": t_hoist, "unparse": t_unparse, "rename": t_rename, "renameparams": t_renameparams, "flipif": t_flipif, "rettemp": t_rettemp,
-              "docstring": t_docstring, "reorder": t_reorder}
+              "docstring": t_docstring, "reorder": t_reorder,
+              "noelse": t_noelse, "addelse": t_addelse, "demorgan": t_demorgan, "chaincmp": t_chaincmp, "ifexp": t_ifexp,
+              "comp2loop": t_comp2loop, "kwargs": t_kwargs}
 
 
 # ------------------------------------------------------------------------------------------------------------- driver
